@@ -10,6 +10,7 @@ pub mod c06;
 pub mod c07;
 pub mod c08;
 pub mod c09;
+pub mod c10;
 
 pub fn dispatch(args: &Args, rep: &mut Report) {
     match args.prop.as_str() {
@@ -22,6 +23,7 @@ pub fn dispatch(args: &Args, rep: &mut Report) {
         "C07" => c07::run(args, rep),
         "C08" => c08::run(args, rep),
         "C09" => c09::run(args, rep),
+        "C10" => c10::run(args, rep),
         p => {
             eprintln!("unknown property {p}");
             std::process::exit(2);
